@@ -106,8 +106,8 @@ impl World for WorldI {
             }
         }
         let cfg = ICfg {
-            chain_name: rng.pick(&["stellar", "chain_name", "stellar-2025-q1", "", "stéllar-链", "axelar"]).to_string(),
-            hub_address: rng.pick(&["axelar1hubaddressxyz", "its_hub_address", "h", ""]).to_string(),
+            chain_name: rng.pick(&["stellar", "chain_name", "stellar-2025-q1", "", "stéllar-链", "axelar", "Stellar", "STELLAR-2025-Q1", "stellar ", "stellar\0"]).to_string(),
+            hub_address: rng.pick(&["axelar1hubaddressxyz", "its_hub_address", "h", "", "Axelar1HubAddressXYZ"]).to_string(),
             n_signers: rng.range(1, 3) as u8,
             probe_meta: [gen_meta(rng, true), gen_meta(rng, false)],
             payloads,
